@@ -299,6 +299,17 @@ def d3(ctx, F):
             lv = flow.derived(b, {glc[0].dest["l"]}, calls="adapters") if glc else set()
             ctx.check(vroot in lv, "C05.D3.validated-value-used", "encode:validates-other-value",
                       "encode validates the value returned by get_length", vcall.span)
+        # both sides must measure the same quantity against the limit — the payload length itself, not a derived amount (e.g. the
+        # length plus the 9 marker bytes): otherwise frames near the limit are accepted by one side and refused by the other
+        if side == "encode":
+            ps = flow.payload_source(b, vcall.args[0])
+            same = ps is not None and ps[0] == "call" and strip_generics(ps[1].callee) == "selium_protocol::frame::Frame::get_length"
+            what = "the payload length returned by get_length, unmodified"
+        else:
+            r0 = flow.root(b, vcall.args[0], through_calls=())
+            same = r0[0] == "call" and strip_generics(r0[1].callee) in BE_READ
+            what = "the length read from the frame header, unmodified"
+        ctx.check(same, "C05.D3.same-quantity", "%s:limit-on-derived-value" % side, "%s applies the limit to %s" % (side, what), vcall.span)
 
 
 def d4(ctx, F):
@@ -435,6 +446,27 @@ def d5(ctx, F):
     st = r.calls_to("bytes::bytes::Bytes::split_to", "bytes::buf::buf_impl::Buf::copy_to_bytes")
     good = len(push) == 1 and len(st) == 1 and flow.root_local(r, push[0].args[1]) == st[0].dest["l"]
     ctx.check(good, "C05.D5.batch-order", "batch-reader-order", "every element read is appended (Vec::push) to the output in read order", (push or st or [r])[0].span)
+    # the reader takes exactly as many elements as the header announces: the loop bound is the count read, through casts only
+    # (a clamped / shadowed count silently drops the tail of a large batch)
+    hdr = [c for c in r.calls() if strip_generics(c.callee) in BE_READ and c.bb not in (set().union(*flow.loops(r)) if flow.loops(r) else set())]
+    rng = [(i, rv, s) for i, j, pl, rv, s in r.assigns() if rv["k"] == "agg" and rv.get("adt", "").endswith(("ops::range::Range", "ops::range::RangeInclusive"))]
+    okn = False
+    if len(hdr) == 1 and len(rng) == 1:
+        rv = rng[0][1]
+        end = flow.root(r, rv["ops"][1], through_calls=())
+        okn = flow.const_of(rv["ops"][0]) == 0 and rv["adt"].endswith("::Range") and end[0] == "call" and end[1] is hdr[0]
+    else:
+        # `while read < count` style loops: some comparison against the header value must bound the loop
+        okn = False
+        for i, bl in enumerate(r.blocks):
+            sc = flow.switch_condition(r, i)
+            if sc and sc.get("kind") == "cmp" and hdr and any(i in l for l in flow.loops(r)):
+                for o in (sc["a"], sc["b"]):
+                    e = flow.root(r, o, through_calls=()) if o.get("k") in ("copy", "move") else None
+                    if e and e[0] == "call" and e[1] is hdr[0]:
+                        okn = True
+    ctx.check(okn, "C05.D5.batch-count", "batch-reader-count", "the batch reader reads exactly the announced number of elements (loop bound = the count header, unmodified)",
+              (rng[0][2]["span"] if rng else r.span))
     # writer header is the element count, element prefix is that element's length
     p = [c for c in w.calls() if strip_generics(c.callee) in BE_WRITE]
     if p:
